@@ -37,15 +37,18 @@ def decode_nodes(c):
             pos = rec(pos, depth + 1)
         return pos
 
-    rec(4, 0)
+    rec(1 + 4 * c[0], 0)
     return out
 
 
 def features(c):
     nodes = decode_nodes(c)
     f = set()
-    f.add('avail-w-' + ['definite', 'min-content', 'max-content'][c[0]])
-    f.add('avail-h-' + ['definite', 'min-content', 'max-content'][c[2]])
+    f.add('avail-w-' + ['definite', 'min-content', 'max-content'][c[1]])
+    f.add('avail-h-' + ['definite', 'min-content', 'max-content'][c[3]])
+    f.add('passes-%d' % c[0])
+    if c[0] == 2:
+        f.add('second-pass-' + ('same-available-space' if c[1:5] == c[5:9] else 'other-available-space'))
     f.add('depth-%d' % max(d for d, _ in nodes))
     for d, h in nodes:
         kids = h[57]
@@ -99,9 +102,10 @@ def describe_diff(c, a, b):
     for i, (x, y) in enumerate(zip(a, b)):
         if x != y:
             node, fld = divmod(i, LAY_LEN)
+            nn = len(decode_nodes(c))
             fx = x if fld == 0 else _f(x)
             fy = y if fld == 0 else _f(y)
-            return 'node %d field %s: impl %r model %r' % (node, FIELDS[fld], fx, fy)
+            return 'pass %d node %d field %s: impl %r model %r' % (node // nn, node % nn, FIELDS[fld], fx, fy)
     return 'equal'
 
 
